@@ -81,11 +81,24 @@ structure Verdict where
   nontrivial : Bool
   model : ObsJ
   batchCancel : Bool := false   -- a batch run with an asynchronous cancellation during a retry wait (also judged as C11)
+  c02 : Bool := true            -- C02's bounds (attempts ≤ N, none after a success, fallback only after N failures) on the implementation's trace
+  c02Model : Bool := true
+
+/-- C02's cancellation-proof bounds per item of a batch trace: never more than `N` attempts, none after a success, the fallback at
+    most once and only by a node with a custom fallback after all `N` attempts were made and failed. -/
+def c02BatchBounds (cfg : BatchCfg) (scr : BatchScript) (n : Nat) (tr : List Ev) : Bool :=
+  (List.range n).all fun i =>
+    let m := (tr.filter fun e => match e with | .bexec _ _ j _ _ => j == i | _ => false).length
+    let f := (tr.filter fun e => match e with | .bfb _ _ j _ _ => j == i | _ => false).length
+    let failed (k : Nat) : Bool := match ((scr.item i).exec k).res with | .ok _ => false | .error _ => true
+    decide (m ≤ cfg.budget) && (List.range (m - 1)).all failed && decide (f ≤ 1)
+    && (f == 0 || (cfg.fb == .custom && m == cfg.budget && (List.range cfg.budget).all failed))
+
 
 def process (sc : ScJ) (obs : ObsJ) : Except String Verdict := do
   let kind ← match sc.kind with
     | "canceled" => pure CtxKind.canceled | "deadline" => pure CtxKind.deadline
-    | "cause" => pure CtxKind.canceled | "fardeadline" => pure CtxKind.canceled | "child" => pure CtxKind.canceled
+    | "cause" => pure CtxKind.canceled | "fardeadline" => pure CtxKind.canceled | "child" => pure CtxKind.canceled | "neardeadline" => pure CtxKind.deadline
     | k => throw s!"bad kind {k}"
   -- what the implementation did
   let implTrace ← match obs.trace.mapM parseEv with | some t => pure t | none => throw "bad trace in observation"
@@ -106,7 +119,9 @@ def process (sc : ScJ) (obs : ObsJ) : Except String Verdict := do
     let io : Obs := { trace := implTrace, out := implOut, within := obs.within }
     let spec := !abnormal && io.within && c20Leaf kind cfg scr io.trace io.out
     let specModel := c20Leaf kind cfg scr m.trace m.out
-    pure { agree := !abnormal && io == m, spec, specModel, nontrivial := hasWait m.trace, model := obsToJ m }
+    let noW (t : List Ev) := t.filter (fun e => !e.isWait)
+    pure { agree := !abnormal && io == m, spec, specModel, nontrivial := hasWait m.trace, model := obsToJ m,
+           c02 := Flyt.Spec.c02Bounds cfg scr (noW io.trace), c02Model := Flyt.Spec.c02Bounds cfg scr (noW m.trace) }
   | none, none, some bc, some bs =>
     let cfg ← match batchCfgOf bc with | some c => pure c | none => throw "bad batch cfg"
     let scr ← match batchScriptOf bs with | some s => pure s | none => throw "bad batch script"
@@ -134,16 +149,17 @@ def process (sc : ScJ) (obs : ObsJ) : Except String Verdict := do
     let spec := !abnormal && io.within && c20Batch kind cfg scr items.length (!wide) io.trace
     let specModel := c20Batch kind cfg scr items.length (!wide) m.trace
     pure { agree := !abnormal && io == m, spec, specModel, nontrivial := hasWait m.trace, model := obsToJ m,
-           batchCancel := anyCancel }
+           batchCancel := anyCancel, c02 := c02BatchBounds cfg scr items.length io.trace,
+           c02Model := c02BatchBounds cfg scr items.length m.trace }
   | _, _, _, _ => throw "scenario must have exactly one of leaf+leafScript / batch+batchScript"
 
 def verdictJson (v : Verdict) : Json :=
   -- C11's "no new retry attempt after the cancellation, the run terminates, unexecuted items carry errors" is the
   -- same predicate on batch runs that are cancelled while an item sits in its retry wait
   Json.mkObj [("agree", Json.bool v.agree),
-    ("spec", Json.mkObj [("C20", Json.bool v.spec), ("C11", Json.bool (!v.batchCancel || v.spec))]),
-    ("specModel", Json.mkObj [("C20", Json.bool v.specModel), ("C11", Json.bool (!v.batchCancel || v.specModel))]),
-    ("nontrivial", Json.mkObj [("C20", Json.bool v.nontrivial), ("C11", Json.bool v.batchCancel)]), ("model", toJson v.model)]
+    ("spec", Json.mkObj [("C20", Json.bool v.spec), ("C11", Json.bool (!v.batchCancel || v.spec)), ("C02", Json.bool v.c02)]),
+    ("specModel", Json.mkObj [("C20", Json.bool v.specModel), ("C11", Json.bool (!v.batchCancel || v.specModel)), ("C02", Json.bool v.c02Model)]),
+    ("nontrivial", Json.mkObj [("C20", Json.bool v.nontrivial), ("C11", Json.bool v.batchCancel), ("C02", Json.bool v.nontrivial)]), ("model", toJson v.model)]
 
 def handle (sc obs : Json) : Json :=
   match fromJson? (α := ScJ) sc, fromJson? (α := ObsJ) obs with
